@@ -113,6 +113,21 @@ func runHistProp(o *Options, prop string, prof *Profile, quickN, thoroughN int, 
 			}
 		}
 	}
+	if prop == "C18" {
+		// renders of very different sizes on pooled contexts: whatever a render made the context
+		// grow to, giving it back settles what the render acquired and deferred
+		id0 := n + 2000
+		for k, size := range []int{5, 4096, 80 * 1024, 3} {
+			h := &history{Reg: map[string][]dyntpl.VerifNode{}, Flits: map[string]float64{}, Budget: 8}
+			d := &DataEnv{Statics: []StaticVar{{Name: "big", Kind: "string", Ptr: true, S: longText(size)}, {Name: "t0", Kind: "string", S: []byte("x")}}}
+			ic := manualCase((id0+k)*10, fmt.Sprintf(`{%%= big %%}|{%%= t0|vacquire("pa")|vdefer("d%d") %%}|{%%= t0|vacquire("pb") %%}`, k), d, h)
+			small := manualCase((id0+k)*10+1, `{%= t0|vacquire("pa") %}.`, d, h)
+			h.Steps = []*hStep{{Kind: "render", IC: small, Key: small.vc.Meta["key"].(string)}, {Kind: "release"}, {Kind: "render", IC: ic, Key: ic.vc.Meta["key"].(string)}, {Kind: "release"},
+				{Kind: "render", IC: small, Key: small.vc.Meta["key"].(string)}, {Kind: "reset"}}
+			h.run()
+			hs = append(hs, h)
+		}
+	}
 	if err := runHistories(o, hs); err != nil {
 		res.InfraError = err.Error()
 		return res
